@@ -396,6 +396,7 @@ int main(int argc, char** argv) {
     *done = 0;
     pid_t pid = fork();
     if (pid == 0) {
+      alarm(60);   // a corrupted heap may spin forever: SIGALRM -> status crash
       child(ops, ext, nvars, out, done);
       fflush(out);
       _exit(0);
